@@ -1854,6 +1854,8 @@ def check_C09(ctx):
     libs.append((bname, bitems))
     libmap = dict(libs)
 
+    stdouts = {}
+
     def one(i_run):
         i, (pairs, opts) = i_run
         wd = os.path.join(ctx.work, f"c09-{i}"); os.makedirs(wd)
@@ -1867,6 +1869,7 @@ def check_C09(ctx):
         try:
             r = subprocess.run([impl["runner"]] + opts + args, cwd=wd, stdout=subprocess.PIPE, stderr=subprocess.PIPE, env=env, timeout=120)
             rc = r.returncode
+            stdouts[i] = r.stdout.decode("latin-1")
         except subprocess.TimeoutExpired:
             rc = "timeout"
         ex = sorted(open(log).read().split("\n")[:-1]) if os.path.exists(log) else []
@@ -1885,7 +1888,7 @@ def check_C09(ctx):
         blocks.append("\n".join(b))
     mout = run_model(["select"], "".join(b + "\n---\n" for b in blocks)).split("---\n")
     ndis = nor = 0
-    for (pairs, opts), (ex, rc), mo in zip(runs, results, mout):
+    for ri, ((pairs, opts), (ex, rc), mo) in enumerate(zip(runs, results, mout)):
         ml = mo.strip().split("\n")
         mex = [x for x in ml[0].split(" ")[1:] if x]
         mst = int(ml[1].split(" ")[1])
@@ -1914,6 +1917,17 @@ def check_C09(ctx):
             if not sel: fail = True
             want += [f"{l}/{c}:{n}" for c, n in sel]
             if any(n.endswith("_fails") for _, n in sel): fail = True
+        # with --suite/-s the libraries run as one suite: its final line gives the totals over all of them
+        if opts[:1] == ["-s"] and sorted(want) == ex and all(l in libmap and l not in unloadable and py_selected(libmap[l], p) for l, p in opairs):
+            comp = [l for l in stdouts.get(ri, "").split("\n") if l.startswith("Completed ")]
+            nf = sum(1 for x in want if x.endswith("_fails"))
+            tot = parse_counts(re.sub(r"\x1b\[[0-9;]*m", "", comp[-1])) if comp else None
+            if tot is None or (tot[0], tot[1]) != (len(want) - nf, nf):
+                nor += 1
+                if nor <= 6:
+                    ctx.violation(f"[C09] cgreen-runner {cmdline}: the suite's final line says (passes, failures, skipped, exceptions)={tot}; {len(want) - nf} of the executed tests pass and {nf} fail",
+                                  "# libraries (context:test):\n" + "\n".join(f"# {n}: " + " ".join(f"{c}:{t}" for c, t in libmap[n]) for n, _ in pairs if n in libmap) + f"\ncgreen-runner {cmdline}\n",
+                                  found_input=True, facts={"common_suite_totals": True})
         if sorted(want) != ex or fail != (rc != 0):
             nor += 1
             if nor <= 6:
@@ -2301,6 +2315,13 @@ def check_C11(ctx):
     # ---- (E) failed checks outside a test's bracket (suite fixtures run by the reporting process, exit handlers): the reports
     # are still written completely: well formed, one testcase per test ----
     late = outside_bracket_scens()
+    for msg in ("load 5%s", "100% done %n", "a<b & \"c\" %d %%", "caf\xe9 \x01 %5$s"):      # ... with message texts of every kind
+        for pos in (0, 1):
+            inner = S("inner", items=[T("a", body=["P"]), T("b", body=["F"])])
+            root = S("top", su=1, td=1, items=[inner, T("c", body=["P"])])
+            act = "Y" + msg.encode("latin-1").hex()
+            root.fixture = ([act], []) if pos == 0 else ([], [act])
+            late.append((Scen(root, mode="fork"), f"a failed check with the message {msg!r} in a suite fixture that the reporting process runs around a sub-suite"))
     eobs = bench.run_many([(sc.text(), r) for sc, _ in late for r in XML_REPS], env=sig_env)
     k = 0
     for sc, lab in late:
